@@ -27,11 +27,12 @@ CONSTANTS ReqPlans,      \* set of <<request class, <<requestheaders edit, reque
           RespPlans,     \* set of <<response class, <<responseheaders edit, response edit>> >>
           CanonReq,      \* request plans after which every response plan is explored
           CanonResp,     \* response plans explored after the other request plans
+          LimChoices,    \* subset of BOOLEAN: may the connection run with stream_large_bodies = 6 (edit name "limit")
           MaxEx,         \* client messages per connection
           Pipeline       \* may the client send the next request before the response arrived
 
-VARIABLES nsent, cconn, h1s, pend, cur, sconn, nflow, nT, nF, nB, cms, nfinal, lag, up, down, brk, ended, mon, obs
-vars == <<nsent, cconn, h1s, pend, cur, sconn, nflow, nT, nF, nB, cms, nfinal, lag, up, down, brk, ended, mon, obs>>
+VARIABLES nsent, cconn, h1s, pend, cur, sconn, nflow, nT, nF, nB, cms, nfinal, lag, up, down, brk, ended, lim, mon, obs
+vars == <<nsent, cconn, h1s, pend, cur, sconn, nflow, nT, nF, nB, cms, nfinal, lag, up, down, brk, ended, lim, mon, obs>>
 
 \* Http1Server.send(ResponseEndOfMessage) wrote 0 CRLF CRLF after 204 / 304 / 1xx responses carrying
 \* Transfer-Encoding: chunked (finding C01-F2); repaired in /repo by feb0b40bb -> FALSE describes the current code
@@ -41,7 +42,12 @@ NoCur == [on |-> FALSE, f |-> 0, tag |-> 0, m |-> "", v10 |-> FALSE, exp |-> FAL
 Init == /\ nsent = 0 /\ cconn = "open" /\ h1s = "read_headers" /\ pend = <<>> /\ cur = NoCur
         /\ sconn = [n |-> 0, open |-> FALSE] /\ nflow = 0 /\ nT = 0 /\ nF = 0 /\ nB = 0
         /\ cms = <<>> /\ nfinal = 0 /\ lag = 0 /\ up = <<>> /\ down = <<>> /\ brk = NoBrk /\ ended = FALSE
+        /\ lim \in LimChoices
         /\ mon = MonInit /\ obs = <<>>
+
+\* stream_large_bodies is an option of the whole connection: with it every message above the limit is streamed, and hooks
+\* that run after the head was streamed (request / response hook, stream edit) cannot edit what is on the wire any more
+EditOK(ed) == (ed[1] = "limit" => lim) /\ (lim => ed[2] = "none" /\ ed[1] \in {"none", "limit", "hdr"})
 
 Live == mon.bad = <<>> /\ ~ended
 Emit(evs) == obs' = evs /\ mon' = FoldEvents(MonStep, mon, evs)
@@ -257,7 +263,7 @@ ProcResp(w, p) ==
 \* the client sends one complete request (one DataReceived)
 ClientSend(p) ==
   /\ Live /\ cconn = "open" /\ nsent < MaxEx /\ pend = <<>> /\ (cur.on => Pipeline /\ ~cur.answered /\ lag = 0)
-  /\ mon.ambReq = "" /\ ~brk.on
+  /\ mon.ambReq = "" /\ ~brk.on /\ EditOK(p[2])
   /\ nsent' = nsent + 1
   /\ LET r == Ref(p[1], FALSE, FALSE)
          first == InEv("req", r)
@@ -265,17 +271,17 @@ ClientSend(p) ==
      IN IF h1s = "wait"       \* Http1Connection.wait: the bytes stay in buf until mark_done
           THEN Commit([W0(first, cm) EXCEPT !.pend = << <<p, nsent + 1>> >>])
           ELSE Commit(ProcReq(W0(first, cm), p, nsent + 1))
-  /\ UNCHANGED ended
+  /\ UNCHANGED <<ended, lim>>
 
 \* the origin server answers the forwarded request (one DataReceived, then ConnectionClosed if the class says so)
 ServerSend(p) ==
   /\ Live /\ cur.on /\ ~cur.answered
-  /\ (cur.canon \/ p \in CanonResp)
+  /\ (cur.canon \/ p \in CanonResp) /\ EditOK(p[2])
   /\ LET bodiless == cur.m = "HEAD" \/ BodilessSt(IF p[1].pre103 THEN 103 ELSE p[1].st)
          r1 == IF p[1].pre103 THEN <<[k |-> "in", side |-> "resp", ref |-> "ok", why |-> "-"]>> ELSE <<>>
          r2 == InEv("resp", Ref(p[1], TRUE, cur.m = "HEAD" \/ BodilessSt(p[1].st)))
      IN Commit(ProcResp(W0(r1 \o r2, cms), p))
-  /\ UNCHANGED <<nsent, ended>>
+  /\ UNCHANGED <<nsent, ended, lim>>
 
 \* end of the scenario: both peers' byte streams as the reference parser reads them
 RECURSIVE DownEvs(_, _, _, _)
@@ -306,7 +312,7 @@ BrkTail == CASE ~brk.on -> <<"clean", "-">>
              [] OTHER -> <<"partial", "-">>                                   \* body bytes without a line end
 Finish ==
   /\ Live /\ ended' = TRUE
-  /\ UNCHANGED <<nsent, cconn, h1s, pend, cur, sconn, nflow, nT, nF, nB, cms, nfinal, lag, up, down, brk>>
+  /\ UNCHANGED <<nsent, cconn, h1s, pend, cur, sconn, nflow, nT, nF, nB, cms, nfinal, lag, up, down, brk, lim>>
   /\ Emit(AllUp(1) \o DownEvs(down, 1, nF, nB)
           \o <<[k |-> "out_end", side |-> "resp", c |-> 0,
                 tail |-> BrkTail[1], why |-> BrkTail[2]],
